@@ -375,3 +375,151 @@ Example parse_alloc_hostile_length :
                [0; 0; 0; 0; 0; 0; 0; 0] ++ [0; 0; 0; 0; 0; 0; 0; 0] ++ [0; 0; 0; 0; 0; 0] ++ [0; 0; 0; 0] ++
                [0; 0; 0; 0; 0; 0; 0; 0] ++ [1; 0; 0; 0; 0; 0; 0; 0; 0; 16]) = 21 + 96 + 65536 + 512.
 Proof. vm_compute. reflexivity. Qed.
+
+(* ============================================================ the accounting run takes the path of the reader *)
+(* [tracks r r0]: the accounting reader r returns, besides its cost, exactly the result of the plain reader r0 *)
+Definition tracks {T} (r : A T) (r0 : Rd T) : Prop := forall bs, snd (r bs) = r0 bs.
+
+Lemma tracks_ret {T} (a : T) : tracks (aret a) (ret a).
+Proof. intros bs. reflexivity. Qed.
+
+Lemma tracks_fail {T} e : tracks (@afail T e) (fail e).
+Proof. intros bs. reflexivity. Qed.
+
+Lemma tracks_free {T} (r : Rd T) : tracks (afree r) r.
+Proof. intros bs. reflexivity. Qed.
+
+Lemma tracks_bind {T U} (r : A T) r0 (f : T -> A U) f0 :
+  tracks r r0 -> (forall a, tracks (f a) (f0 a)) -> tracks (abind r f) (bind r0 f0).
+Proof.
+  intros H1 H2 bs. unfold abind, bind. specialize (H1 bs). destruct (r bs) as [n x]. cbn [snd] in H1. subst x.
+  destruct (r0 bs) as [[a bs']| |]; cbn [snd]; auto.
+  specialize (H2 a bs'). destruct (f a bs') as [m y]. cbn [snd] in *. exact H2.
+Qed.
+
+Lemma tracks_if {T} (c : bool) (r1 r2 : A T) q1 q2 : tracks r1 q1 -> tracks r2 q2 -> tracks (if c then r1 else r2) (if c then q1 else q2).
+Proof. destruct c; auto. Qed.
+
+Lemma tracks_avec n : tracks (avec n) (read_vec n).
+Proof. intros bs. unfold avec. destruct (read_vec n bs) as [[b r]| |]; reflexivity. Qed.
+
+Lemma tracks_ablob k : tracks (ablob k) (read_blob k).
+Proof. unfold ablob, read_blob. apply tracks_bind; [apply tracks_free | intros n; apply tracks_avec]. Qed.
+
+Lemma tracks_Queries : tracks a_Queries read_Queries.
+Proof.
+  unfold a_Queries, read_Queries. apply tracks_bind; [apply tracks_ablob|]. intros v.
+  apply tracks_bind; [apply tracks_ablob|]. intros p. apply tracks_ret.
+Qed.
+
+Lemma tracks_OodFrame : tracks a_OodFrame read_OodFrame.
+Proof.
+  unfold a_OodFrame, read_OodFrame. apply tracks_bind; [apply tracks_ablob|]. intros t.
+  apply tracks_bind; [apply tracks_ablob|]. intros l. apply tracks_bind; [apply tracks_ablob|]. intros e. apply tracks_ret.
+Qed.
+
+Lemma tracks_FriProofLayer : tracks a_FriProofLayer read_FriProofLayer.
+Proof.
+  unfold a_FriProofLayer, read_FriProofLayer. apply tracks_bind; [apply tracks_free|]. intros n.
+  apply tracks_if; [apply tracks_fail|].
+  apply tracks_bind; [apply tracks_avec|]. intros v. apply tracks_bind; [apply tracks_ablob|]. intros p. apply tracks_ret.
+Qed.
+
+(* the loop: with more fuel than input bytes and elements that consume at least one byte, fuel is never exhausted *)
+Lemma tracks_many_loop {T} (r : A T) (r0 : Rd T) g : tracks r r0 -> eats 1 r0 ->
+  forall fuel n acc bs, len bs < Z.of_nat fuel ->
+    snd (a_many_loop fuel r g n acc bs) =
+    match read_many_nat r0 (Z.to_nat n) bs with Ok (l, rest) => Ok (rev acc ++ l, rest) | Err e => Err e | Panic => Panic end.
+Proof.
+  intros Ht He. induction fuel as [|fuel IH]; intros n acc bs Hf.
+  - pose proof (len_nonneg bs). lia.
+  - cbn [a_many_loop]. destruct (Z.leb_spec n 0) as [Hn | Hn].
+    + replace (Z.to_nat n) with 0%nat by lia. cbn. now rewrite app_nil_r.
+    + replace (Z.to_nat n) with (S (Z.to_nat (n - 1))) by lia. cbn [read_many_nat].
+      specialize (Ht bs). destruct (r bs) as [m x]. cbn [snd] in Ht. subst x.
+      destruct (r0 bs) as [[a bs']| |] eqn:E; cbn [snd]; auto.
+      specialize (He bs a bs' E).
+      specialize (IH (n - 1) (a :: acc) bs' ltac:(lia)).
+      destruct (a_many_loop fuel r g (n - 1) (a :: acc) bs') as [m' y]. cbn [snd] in *. rewrite IH.
+      destruct (read_many_nat r0 (Z.to_nat (n - 1)) bs') as [[l rest]| |]; auto.
+      cbn [rev]. now rewrite <- app_assoc.
+Qed.
+
+Lemma tracks_many {T} (r : A T) (r0 : Rd T) sz n : tracks r r0 -> eats 1 r0 -> tracks (a_many r sz n) (read_many r0 n).
+Proof.
+  intros Ht He bs. unfold a_many.
+  pose proof (tracks_many_loop r r0 (GROW * sz) Ht He (S (length bs)) n [] bs ltac:(unfold len; lia)) as H.
+  destruct (a_many_loop (S (length bs)) r (GROW * sz) n [] bs) as [m x]. cbv beta iota zeta. cbn [snd] in *. rewrite H. cbn [rev app].
+  destruct (Z.leb_spec n 0) as [Hn | Hn].
+  - replace (Z.to_nat n) with 0%nat by lia. cbn. unfold read_many. destruct n; try lia; reflexivity.
+  - rewrite <- (Z2Nat.id n) at 2 by lia. rewrite read_many_spec.
+    destruct (read_many_nat r0 (Z.to_nat n) bs) as [[l rest]| |]; reflexivity.
+Qed.
+
+Lemma eats_read_blob k : eats (Z.of_nat k) (read_blob k).
+Proof.
+  unfold read_blob, read_vec. replace (Z.of_nat k) with (Z.of_nat k + 0) by lia.
+  apply eats_bind; [apply eats_read_uint | intros; apply eats_read_slice].
+Qed.
+
+Lemma eats_read_Queries : eats 1 read_Queries.
+Proof.
+  unfold read_Queries. replace 1 with (1 + (0 + 0)) by lia.
+  apply eats_bind; [eapply eats_weaken; [|apply (eats_read_blob 4)]; lia|]. intros v.
+  apply eats_bind; [eapply eats_weaken; [|apply (eats_read_blob 4)]; lia|]. intros p. apply eats_ret.
+Qed.
+
+Lemma eats_read_FriProofLayer : eats 1 read_FriProofLayer.
+Proof.
+  unfold read_FriProofLayer, read_u32, read_vec. replace 1 with (1 + 0) by lia.
+  apply eats_bind; [eapply eats_weaken; [|apply (eats_read_uint 4)]; lia|]. intros n.
+  apply eats_if; [apply eats_fail|]. eats0. eapply eats_weaken; [|apply (eats_read_blob 4)]; lia.
+Qed.
+
+Lemma tracks_FriProof : tracks a_FriProof read_FriProof.
+Proof.
+  unfold a_FriProof, read_FriProof. apply tracks_bind; [apply tracks_free|]. intros n.
+  apply tracks_bind; [apply tracks_many; [apply tracks_FriProofLayer | apply eats_read_FriProofLayer]|]. intros layers.
+  apply tracks_bind; [apply tracks_ablob|]. intros r. apply tracks_bind; [apply tracks_free|]. intros np.
+  apply tracks_if; [apply tracks_fail | apply tracks_ret].
+Qed.
+
+Lemma tracks_Context : tracks a_Context read_Context.
+Proof. intros bs. unfold a_Context. destruct (read_Context bs) as [[c r]| |]; reflexivity. Qed.
+
+Lemma bind_assoc {T U V} (a : Rd T) (f : T -> Rd U) (g : U -> Rd V) bs :
+  bind (bind a f) g bs = bind a (fun x => bind (f x) g) bs.
+Proof. unfold bind. destruct (a bs) as [[x bs']| |]; reflexivity. Qed.
+
+Lemma tracks_gkr :
+  tracks (tag <~ afree read_bool ;;
+          if tag then (n <~ afree read_usize ;; v <~ a_many (afree read_u8) 1 n ;; aret (Some v)) else aret None)
+         (read_option (read_vec_of read_u8)).
+Proof.
+  unfold read_option. apply tracks_bind; [apply tracks_free|]. intros tag.
+  apply tracks_if; [|apply tracks_ret].
+  intros bs. unfold read_vec_of. rewrite bind_assoc. revert bs.
+  apply tracks_bind; [apply tracks_free|]. intros n.
+  apply tracks_bind; [apply tracks_many; [apply tracks_free | apply eats_read_u8]|]. intros v. apply tracks_ret.
+Qed.
+
+Theorem tracks_Proof : tracks a_Proof read_Proof.
+Proof.
+  unfold a_Proof, read_Proof. apply tracks_bind; [apply tracks_Context|]. intros c.
+  apply tracks_bind; [apply tracks_free|]. intros nuq.
+  apply tracks_bind; [apply tracks_ablob|]. intros com.
+  apply tracks_bind.
+  { intros bs. pose proof (tracks_many a_Queries read_Queries 0 (ti_num_segments (ctx_trace_info c)) tracks_Queries eats_read_Queries bs) as H.
+    destruct (a_many a_Queries 0 (ti_num_segments (ctx_trace_info c)) bs) as [m x]. exact H. }
+  intros tq. apply tracks_bind; [apply tracks_Queries|]. intros cq.
+  apply tracks_bind; [apply tracks_OodFrame|]. intros ood.
+  apply tracks_bind; [apply tracks_FriProof|]. intros fri.
+  apply tracks_bind; [apply tracks_free|]. intros nonce.
+  apply tracks_bind; [apply tracks_gkr|]. intros gkr. apply tracks_ret.
+Qed.
+
+(* the accounting is an annotation of Proof::from_bytes: same result on every input *)
+Theorem parse_alloc_follows_parse : forall bs, parse_alloc_result bs = parse bs.
+Proof.
+  intros bs. unfold parse_alloc_result, parse, parse_prefix. rewrite (tracks_Proof bs). reflexivity.
+Qed.
